@@ -19,10 +19,13 @@
       runs [initialize_features], which creates-or-gets what it depends on:
       an [IsCompletedObserver] created on an empty dispatcher yields the
       subscription order IsCompleted, RemainingOperations, Unscheduled.
-      [Dispatcher.reset] resets the subscribers in that order, and
-      [IsCompletedObserver.reset] RE-READS the remaining-operations observer
-      at that moment ([rgu_reset] is faithful to that; what it implies for a
-      second episode is property C12's business).
+      [Dispatcher.reset] resets the subscribers in that order. Since the
+      repair 196fa58 [RemainingOperationsObserver.initialize_features] and
+      [IsCompletedObserver.initialize_features] (constructor AND reset) still
+      create-or-get the observer they used to read — only for the side effect
+      of having it subscribed — and COUNT [dispatcher.unscheduled_operations()]
+      themselves, so the order in which the subscribers are reset no longer
+      matters (property C12, proofs/ResetResidual.v).
     * numpy: [a[idx, 0] -= 1] / [+= 1] / [= v] with an index LIST touch every
       listed row once (a repeated index is not accumulated): "for every
       machine id that occurs in [operation.machines]".
@@ -87,10 +90,12 @@ Record iscomp := mkic {
 Definition iscomp_ok (need_m need_j : bool) (c : iscomp) : bool :=
   (negb need_m || ic_m c) && (negb need_j || ic_j c).
 
-(** [initialize_features] given the remaining-operations observer found or
-    created at that moment: features to zero, counters copied. [old_*]: the
-    counters before (kept when the feature type is not tracked; [__init__]
-    sets them to zeros). *)
+(** [initialize_features]: features to zero, counters taken from [r] — since
+    the repair 196fa58 [r] is NOT the remaining-operations observer found or
+    created at that moment but the count of the dispatcher's own unscheduled
+    operations ([remops_init I (unscheduled_ops I d) hm hj], see [new_iscomp]
+    and [dep_reset]). [old_*]: the counters before (kept when the feature type
+    is not tracked; [__init__] sets them to zeros). *)
 Definition ic_init (I : instance) (ho hm hj : bool) (old_m old_j : list Z) (r : remops) : iscomp :=
   mkic ho hm hj
        (if hm then match ro_m r with Some l => l | None => old_m end else old_m)
@@ -156,12 +161,13 @@ Definition get_or_new_unsched (I : instance) (d : dstate) (ch : list dep)
   end.
 
 (** [RemainingOperationsObserver(dispatcher, feature_types=..)]: subscribes,
-    THEN creates-or-gets the unscheduled-operations observer and counts. *)
+    THEN creates-or-gets the unscheduled-operations observer (kept for that
+    side effect only) and counts [dispatcher.unscheduled_operations()]. *)
 Definition new_remops (I : instance) (d : dstate) (hm hj : bool) (ch : list dep) : list dep * remops :=
   let i := length ch in
   let ch1 := ch ++ [DRemOps (mkro None None)] in
-  let '(ch2, dq) := get_or_new_unsched I d ch1 in
-  let r := remops_init I (concat dq) hm hj in
+  let '(ch2, _) := get_or_new_unsched I d ch1 in
+  let r := remops_init I (unscheduled_ops I d) hm hj in
   (upd ch2 i (DRemOps r), r).
 
 Definition get_or_new_remops (I : instance) (d : dstate) (need_m need_j : bool) (ch : list dep)
@@ -173,14 +179,15 @@ Definition get_or_new_remops (I : instance) (d : dstate) (need_m need_j : bool) 
 
 (** [IsCompletedObserver(dispatcher, feature_types=..)]: subscribes, THEN
     creates-or-gets a remaining-operations observer tracking its own
-    non-OPERATIONS feature types and copies its counters. *)
+    non-OPERATIONS feature types (kept for that side effect only) and counts
+    [dispatcher.unscheduled_operations()] per machine / job. *)
 Definition new_iscomp (I : instance) (d : dstate) (ho hm hj : bool) (ch : list dep) : list dep * nat :=
   let i := length ch in
   let zm := repeat 0 (num_machines I) in
   let zj := repeat 0 (num_jobs I) in
   let ch1 := ch ++ [DIsComp (mkic ho hm hj zm zj [] [])] in
-  let '(ch2, r) := get_or_new_remops I d hm hj ch1 in
-  (upd ch2 i (DIsComp (ic_init I ho hm hj zm zj r)), i).
+  let '(ch2, _) := get_or_new_remops I d hm hj ch1 in
+  (upd ch2 i (DIsComp (ic_init I ho hm hj zm zj (remops_init I (unscheduled_ops I d) hm hj))), i).
 
 (** Observers the user created before the updater (the harness's scenarios):
     [create_or_get_observer(UnscheduledOperationsObserver)], a
@@ -276,17 +283,19 @@ Definition rgu_update (I : instance) (fs : list fname) (d : dstate) (x : sop) (u
 
 (** ** reset *)
 
-(** [reset] of the subscriber at position [i], reading the OTHER subscribers
-    as they are at that moment. *)
+(** [reset] of the subscriber at position [i] ([initialize_features] again):
+    the create-or-get calls may append subscribers, the counts come from the
+    dispatcher state [d]. *)
 Definition dep_reset (I : instance) (d : dstate) (ch : list dep) (i : nat) : list dep :=
   match nth_error ch i with
   | Some (DUnsched _) => upd ch i (DUnsched (all_deques I))
   | Some (DRemOps r) =>
-      let '(ch1, dq) := get_or_new_unsched I d ch in
-      upd ch1 i (DRemOps (remops_init I (concat dq) (is_some (ro_m r)) (is_some (ro_j r))))
+      let '(ch1, _) := get_or_new_unsched I d ch in
+      upd ch1 i (DRemOps (remops_init I (unscheduled_ops I d) (is_some (ro_m r)) (is_some (ro_j r))))
   | Some (DIsComp c) =>
-      let '(ch1, r) := get_or_new_remops I d (ic_m c) (ic_j c) ch in
-      upd ch1 i (DIsComp (ic_init I (ic_o c) (ic_m c) (ic_j c) (ic_rem_m c) (ic_rem_j c) r))
+      let '(ch1, _) := get_or_new_remops I d (ic_m c) (ic_j c) ch in
+      upd ch1 i (DIsComp (ic_init I (ic_o c) (ic_m c) (ic_j c) (ic_rem_m c) (ic_rem_j c)
+                                  (remops_init I (unscheduled_ops I d) (ic_m c) (ic_j c))))
   | None => ch
   end.
 (** [for subscriber in self.subscribers: subscriber.reset()] (a subscriber
